@@ -24,7 +24,7 @@ type Mutated struct {
 var DefectClasses = []string{
 	"substitute", "transpose", "count-delete", "count-insert", "count-any", "foreign-word", "case",
 	"affix", "junk-token", "separator", "checksum-only", "last-word", "none", "lead-zero-wrongsum",
-	"empty-token", "drop-word-keep-separator", "strip-marks", "add-mark", "invisible-affix", "count-wrap", "hash-lookalike", "letter-affix", "giant-token",
+	"empty-token", "drop-word-keep-separator", "strip-marks", "add-mark", "invisible-affix", "count-wrap", "hash-lookalike", "letter-affix", "giant-token", "numbered", "detached-mark",
 }
 
 func join(l ref.Lang, idx []int, sep string) string {
@@ -112,7 +112,7 @@ func Defect() *rapid.Generator[Mutated] {
 			words[p] = rapid.OneOf(UString(3), BString(12)).Draw(t, "junk")
 			m.Text, m.Desc = strings.Join(words, " "), fmt.Sprintf("word %d replaced by an arbitrary string", p)
 		case "separator":
-			how := rapid.SampledFrom([]string{"double", "leading", "trailing", "tab", "newline", "nbsp", "ideographic", "none", "comma", "mixed-ws", "zwsp", "crlf-end"}).Draw(t, "how")
+			how := rapid.SampledFrom([]string{"double", "leading", "trailing", "tab", "newline", "nbsp", "ideographic", "none", "none-at-all", "comma", "mixed-ws", "zwsp", "crlf-end"}).Draw(t, "how")
 			p := rapid.IntRange(0, n-2).Draw(t, "pos")
 			s := strings.Join(words, " ")
 			switch how {
@@ -132,6 +132,8 @@ func Defect() *rapid.Generator[Mutated] {
 				s = strings.Join(words, "\u3000")
 			case "none":
 				s = strings.Join(words[:p+1], " ") + strings.Join(words[p+1:], " ")
+			case "none-at-all":
+				s = strings.Join(words, "") // written without spaces (as Chinese and Japanese text is)
 			case "comma":
 				s = strings.Join(words, ", ")
 			case "mixed-ws":
@@ -276,6 +278,47 @@ func Defect() *rapid.Generator[Mutated] {
 				words[p] = tok
 				m.Text, m.Desc = strings.Join(words, " "), fmt.Sprintf("word %d replaced by a %d-byte token", p, len(tok))
 			}
+		case "numbered":
+			// a recovery sheet typed with its numbering: "1. w1 2. w2 ...", "1) w1 ...", "1 w1 ...", "1.w1 2.w2"
+			style := rapid.SampledFrom([]string{"%d. %s", "%d) %s", "%d: %s", "%d %s", "%d.%s", "#%d %s", "%d.\t%s"}).Draw(t, "style")
+			from := rapid.SampledFrom([]int{1, 1, 1, 0}).Draw(t, "first-number")
+			parts := make([]string, n)
+			for i := range words {
+				parts[i] = fmt.Sprintf(style, i+from, words[i])
+			}
+			sep := rapid.SampledFrom([]string{" ", " ", "\n", "  "}).Draw(t, "sep")
+			m.Text, m.Desc = strings.Join(parts, sep), "words numbered like a recovery sheet"
+		case "detached-mark":
+			// a space in front of a combining mark inside a word (what the spacing clones U+00B4,
+			// U+00A8, U+309B ... decompose to): the word is torn in two
+			var cand []int
+			for i, w := range words {
+				for j, r := range w {
+					if j > 0 && unicode.Is(unicode.Mn, r) {
+						cand = append(cand, i)
+						break
+					}
+				}
+			}
+			if len(cand) == 0 {
+				// no word with a mark in this sentence: put a detached mark behind a word instead
+				p := rapid.IntRange(0, n-1).Draw(t, "pos")
+				words[p] += " " + rapid.SampledFrom([]string{"\u0301", "\u0308", "\u3099", "\u309a", "\u0327"}).Draw(t, "mark")
+				m.Text, m.Desc = strings.Join(words, " "), fmt.Sprintf("a detached combining mark behind word %d", p)
+				break
+			}
+			p := cand[rapid.IntRange(0, len(cand)-1).Draw(t, "which")]
+			var b strings.Builder
+			done := false
+			for j, r := range words[p] {
+				if !done && j > 0 && unicode.Is(unicode.Mn, r) {
+					b.WriteByte(' ')
+					done = true
+				}
+				b.WriteRune(r)
+			}
+			words[p] = b.String()
+			m.Text, m.Desc = strings.Join(words, " "), fmt.Sprintf("a space in front of the combining mark of word %d", p)
 		case "lead-zero-wrongsum":
 			// sentences whose entropy starts with zero bytes and whose checksum is the one of
 			// the entropy with its leading zero bytes dropped (what a big-integer
